@@ -25,3 +25,29 @@ func VerifHandshakeAuth(m *Manager, info HandshakeResponseInfo) (string, error) 
 	err := cc.handleHandshakeResponse(info)
 	return cc.namespace, err
 }
+
+type verifAddr string
+
+func (a verifAddr) Network() string { return "tcp" }
+func (a verifAddr) String() string  { return string(a) }
+
+type verifConn struct {
+	net.Conn
+	remote net.Addr
+}
+
+func (c verifConn) RemoteAddr() net.Addr { return c.remote }
+
+// VerifIsAllowConnect runs the real per-session allow-list decision
+// (Session.IsAllowConnect) for a session bound to namespace whose peer address
+// is remoteAddr (host:port as net.Conn.RemoteAddr().String() would give it).
+func VerifIsAllowConnect(m *Manager, namespace, remoteAddr string) bool {
+	c1, c2 := net.Pipe()
+	defer c1.Close()
+	defer c2.Close()
+	cc := new(Session)
+	cc.c = NewClientConn(mysql.NewConn(verifConn{Conn: c1, remote: verifAddr(remoteAddr)}), m)
+	cc.manager = m
+	cc.namespace = namespace
+	return cc.IsAllowConnect()
+}
